@@ -45,12 +45,23 @@ def check(m, run):
     inverse_pairs(m, run, maps)
     setters(m, run)
     per_point_index(m, run)
-    converters(m, run)
-    tol_two_sided(m, run, [m.func('convert.nurbs_to_bspline')])
+    # the conversions are decided by interpreting them on shapes built through the real classes (CV4); the rules that read the spelling of
+    # the assignments in _convert, of the dispatch and of the unit-weight test corroborate
+    from .. import skel_drivers as _sdk
+    n0 = len(run.obs)
+    try:
+        _sdk.cv4(m, run)
+    except AnalysisError as ex:
+        run.error(str(ex))
+    cv_ok = len(run.obs) > n0 and all(o.ok for o in run.obs[n0:])
+    with run.corroborating(cv_ok, 'CV4', rules=('CV1.convert-copies-same-axis', 'CV1.convert-order', 'CV1.convert-dispatch', 'CV2.converted-shape-keeps-parametrisation',
+                                               'UW1.one-non-unit-weight-refuses')):
+        converters(m, run)
+        tol_two_sided(m, run, [m.func('convert.nurbs_to_bspline')])
+        every_weight_tested(m, run)
     no_escape(m, run)
     from . import c14
     c14.file_helpers(m, run)
-    every_weight_tested(m, run)
     reads_through_getters(m, run)
     run.floor('WS1.weight-slot', 12, '6 converters x (coordinate map, domain, slot)')
     run.floor('CV1.convert-copies-same-axis', 20, '4 + 7 + 10 assignments of _convert')
@@ -75,9 +86,16 @@ def reads_through_getters(m, run):
                     if isinstance(par, ast.Subscript) and par.value is x and isinstance(par.ctx, (ast.Store, ast.Del)):
                         continue          # self._cache[k][:] = ...  clears the view, it does not read it
                     own = name == x.slice.value + '#getter'
+                    # ... or inside the routine that fills the view (it stores a computed value under the same key: its reads are the
+                    # fill test of the lazy idiom, moved out of the getters)
+                    fills = any(isinstance(a, ast.Assign) and any(isinstance(t, ast.Subscript) and norm(t.value) == 'self._cache' and isinstance(t.slice, ast.Constant)
+                                                                  and t.slice.value == x.slice.value for t in a.targets)
+                                and not (isinstance(a.value, ast.List) and not a.value.elts) and not (isinstance(a.value, ast.Call) and norm(a.value.func).endswith('_init_array'))
+                                for a in walk_no_nested(fi.node))
+                    own = own or fills
                     n += 1
                     run.ob('IV8.view-read-through-its-getter', '%s :: %s' % (fi.key, norm(x)), own,
-                           'read inside its own lazily filling getter' if own else
+                           'read inside its own lazily filling getter / filling routine' if own else
                            '`%s` is read directly: the view is only filled by its getter, so after any edit (cold cache) this read sees an empty list '
                            '- e.g. existing weights are taken for missing and replaced by 1.0' % norm(x), site(fi, x))
     if n < 12:
